@@ -127,8 +127,10 @@ def gen_machine_case(seed: int, mti: int, sti: int, enabled: bool, idx: int, sna
             prog += [NOP] * (1 + st.below(4))
         elif k <= 6:
             p = st.choice(ps)
-            n = st.choice((0, 1, 2, max(0, p - 2), max(0, p - 1), p, p + 1, 2 * p, 2 * p + 1, 3 * p + 1,
-                           1 + st.below(40), 255, st.below(256)))
+            n = st.choice((1, 1, 2, max(1, p - 2), max(1, p - 1), p, p + 1, 2 * p, 2 * p + 1, 3 * p + 1,
+                           1 + st.below(40), 255, 1 + st.below(255)))
+            if st.chance(1, 60):
+                n = 0   # Python burns 65536 cycles for WAIT with I = 0 (Rust none): a long multi-period step
             prog += [MV_IL, min(255, n), WAIT]
         elif k <= 8:
             prog += [HALT]
